@@ -142,6 +142,18 @@ def build(wb: WB, spec: dict):
         g = wb.gather(b, sz)
         wb.out("o", wb.job({"x": g}, op="copy", name="/C"))
         return {"o": [f"data{i}+++" for i in range(n)]}
+    if k == "filescatter2c":  # A(file list) -> scatter -> B_i -> gather -> {C1, C2}: two consumers of the gathered list
+        n = spec["n"]
+        v = [{"class": "File", "name": f"in{i}.txt", "content": f"data{i}"} for i in range(n)]
+        p = wb.inp("a", v)
+        a = wb.job({"x": p}, op="copy", name="/A")
+        e, sz = wb.scatter(a)
+        b = wb.job({"x": e}, op="copy", name="/B")
+        g = wb.gather(b, sz)
+        wb.out("o1", wb.job({"x": g}, op="copy", name="/C1"))
+        wb.out("o2", wb.job({"x": g}, op="copy", name="/C2"))
+        exp = [f"data{i}+++" for i in range(n)]
+        return {"o1": exp, "o2": exp}
     if k == "filediamond":  # A -> {B, C} -> D over files
         p = wb.inp("a", {"class": "File", "name": "in0.txt", "content": "data0"})
         a = wb.job({"x": p}, op="copy", name="/A")
@@ -257,6 +269,8 @@ def program_jobs(spec):
         return ["/A/0"] + [f"/B/0.{i}" for i in range(spec["n"])] + ["/C/0"]
     if k == "filediamond":
         return ["/A/0", "/B/0", "/C/0", "/D/0"]
+    if k == "filescatter2c":
+        return ["/A/0"] + [f"/B/0.{i}" for i in range(spec["n"])] + ["/C1/0", "/C2/0"]
     if k == "fileloop":
         n = len(_loop_ref(spec.get("start", 0), spec["pred"], "all"))
         return [f"/lj/0.{i}" for i in range(n)]
